@@ -69,6 +69,7 @@ Print Assumptions c31_commit_quorum_claimed_endorser_refuted.
     unconditionally (inventory of the Verify methods), nothing else is checked. *)
 Theorem c31_intake_as_modelled :
   recv_verifies_sender_sig = true /\ own_sigs_mandatory = true /\
+  decode_rejects_unsigned_proposal = true /\
   intake_checks_endorser_sigs = false /\ intake_checks_claimed_identity = false.
 Proof. exact intake_shape_current. Qed.
 Print Assumptions c31_intake_as_modelled.
